@@ -113,6 +113,9 @@ class FullCheck(BaseCheck):
           act['chunks'] = [(rng.randint(1, 9), rng.choice([0.0, 0.001, 0.004])) for _ in range(n)]
         if rng.random() < bias.get('close_after_reply', 0.02):
           act['close'] = rng.choice(['fin', 'rst'])
+          if rng.random() < 0.5 and 'delay' in act:
+            act['close_delay'] = act['delay']      # closes right behind the reply
+            classes.add('reply-and-close-same-instant')
         req['policy_class'] = cls
         classes.add('reply:' + cls)
         return act
